@@ -81,7 +81,7 @@ def run(ctx):
         for junk in ctx.rng.sample([float("nan"), float("nan"), float("inf"), float("-inf")], ctx.rng.randint(0, 3)):
             rec.insert(ctx.rng.randrange(len(rec) + 1), junk)
         for dtype in (np.float64, np.float32):
-            arr = np.array(rec, dtype=dtype)
+            arr = common.any_layout(ctx.rng, np.array(rec, dtype=dtype))
             before = arr.copy()
             try:
                 together = [float(v) for v in np.atleast_1d(sy(arr))]
